@@ -49,6 +49,15 @@ PROPS["C07"] = {
     "note": "The parser contract safePre is not yet a theorem about the parser model (not in Lean at this commit); it is monitored. The recogniser's language is slightly larger than the token theorem's (it accepts any &[#A-Za-z0-9]+; reference in text).",
 }
 
+PROPS["C17"] = {
+    "modules": ["CM.Props.C17"],
+    "level": "other",
+    "design_ref": "DESIGN.md §6 C17",
+    "technique": "Lean 4 theorems for clause (a) over the filterRaw model (filterRaw_only_lt, filter_none_id: all predicates, all raw texts) + byte correspondence of filterRaw with the model + clause (b) checked by running the Lean transcription of the WHATWG tokenizer over the implementation's filtered output (exhaustive short raw runs, fragments, whole renderings)",
+    "text": "Model.filterRaw is html_renderer.go's filterRaw with its states, index jumps and htmlTagEnd; it is compared byte for byte with the real filterRaw (through the verif-tagged wrapper) on every generated raw run. Clause (a) is a theorem: for every predicate and raw text the output is the input with some '<' replaced by '&lt;' and nothing else (OnlyLt), and a predicate rejecting nothing is the identity. Clause (b) - no start tag with a rejected name is visible to an HTML tokenizer - is stated in Lean against Spec.startTags (tag-related WHATWG tokenizer states) but its simulation proof is not done (C17_no_rejected_start_tag_target); it is decided by running Spec.startTags over the filtered output of all strings <= 5 (quick) / 6 (thorough) over a 15-symbol alphabet, random fragment runs and whole renderings under GFM / reject-all / name-set predicates. Hence 'other', not 'proof'.",
+    "note": "Spec.startTags is my transcription of WHATWG 13.2.5 (data, tag, attribute, comment, bogus comment, markup declaration, DOCTYPE states); it is cross-checked against golang.org/x/net/html's tokenizer on the generated runs (never as a verdict). It does not model RAWTEXT/RCDATA/script states: clause (b) is only evaluated for predicates that reject every raw-text element, for which those states are unreachable exactly when (b) holds.",
+}
+
 MONITOR_NOTE = "No theorem about the parser model backs this property yet (the block/inline parser model is not in Lean at this commit): the property's statement is an executable Lean definition (lean/CM/Spec) evaluated by the Lean driver on every tree the real parser returns for the generated inputs. That is monitoring against a formal specification, not a proof; it is claimed as 'other'."
 
 def monitored(pid, spec, what):
